@@ -106,7 +106,12 @@ P["C11"] = ("proof", "C11_view: for EVERY comparison / ~= / wildcard atom on a v
             "C11_padding: zero padding the release segment (python_full_version) changes no comparison. Atom evaluation = packaging's Specifier.contains = clause_sem (model; compared with evaluate() and packaging by S-bridge / S-parse). "
             "Outside the theorems: `in`/`not in` lists (string containment: known finding pv-in-substring) - direct oracle only.",
             TB_PARSE + "; Model/Bridge.v hand-written over tokenised atoms, tied by the S-bridge stream", "machine-checked proof in Coq over hand models + correspondence; in/not-in lists by differential oracle", "5")
-for k in ("C02", "C04", "C06", "C17", "C03", "C12", "C11"):
+P["C07"] = ("proof", "C07_parses: for every renderable marker (non-empty compounds and ==/!= groups, no <empty>/universal child: what C15 claims of results) the rendering - every class's __str__, MultiMarker's parenthesisation rule, the "
+            "literal-on-the-left spelling - is accepted by the PEP 508 grammar and parses to the expected item tree; C07_meaning: that tree, evaluated as packaging evaluates it, means exactly m; C07_reparse: so the marker rebuilt from str(m) evaluates "
+            "identically in every environment; C07_specials: <empty> / '' are the renderings of the empty / universal marker, are special-cased by the parser, and <empty> never occurs inside a larger rendering. Lexeme level: lexing itself is packaging's. "
+            "Ties: S-mstr (lexed str(m) vs model; model's parser vs packaging's tree), S-mark; direct oracle re-parses with parse_marker and packaging's Marker and compares truth tables.",
+            TB_MARKER + "; Model/MarkerStr.v hand-written, tied by the S-mstr stream; lexing is packaging's", "machine-checked proof in Coq over hand models + correspondence + differential oracle", "5")
+for k in ("C02", "C04", "C06", "C17", "C03", "C12", "C11", "C07"):
     ORACLE_ONLY.pop(k, None)
 checks = []
 for pid in sorted(set(P) | set(ORACLE_ONLY)):
